@@ -15,8 +15,6 @@ correctness is proved there.
 namespace Glm
 open Lean.Grind.CommRing (Expr)
 
-def insertNew (l : List E) (x : E) : List E := if l.contains x then l else l ++ [x]
-
 /-- atom occurrences of an expression seen as a polynomial -/
 def E.atoms : E → List E
   | .add a b | .sub a b | .mul a b => a.atoms ++ b.atoms
@@ -24,15 +22,41 @@ def E.atoms : E → List E
   | .lit n d => if d == 1 then [] else [.lit n d]
   | e => [e]
 
+/-! level 0: atoms compared literally -/
+def insertNew0 (l : List E) (x : E) : List E := if l.contains x then l else l ++ [x]
+def atomTable0 (es : List E) : List E := (es.flatMap E.atoms).foldl insertNew0 []
+def E.toGA0 (atoms : List E) : E → Expr
+  | .add a b => .add (a.toGA0 atoms) (b.toGA0 atoms)
+  | .sub a b => .sub (a.toGA0 atoms) (b.toGA0 atoms)
+  | .mul a b => .mul (a.toGA0 atoms) (b.toGA0 atoms)
+  | .neg a => .neg (a.toGA0 atoms)
+  | .lit n d => if d == 1 then .intCast n else .var (atoms.idxOf (.lit n d))
+  | e => .var (atoms.idxOf e)
+def polyEq0 (a b : E) : Bool :=
+  let atoms := atomTable0 [a, b]
+  (a.toGA0 atoms).toPoly == (b.toGA0 atoms).toPoly
+
+/-- level 1: two atoms are identified when they are literally equal, or the same function applied
+    to arguments that are equal as polynomials (so `sqrt (x*x + y*y)` and `sqrt (y*y + x*x)` are one
+    atom, and a harmless re-association inside glm does not break a theorem) -/
+def atomEq (x y : E) : Bool :=
+  x == y || match x, y with
+  | .call1 f a, .call1 g b => f == g && polyEq0 a b
+  | .call2 f a1 a2, .call2 g b1 b2 => f == g && polyEq0 a1 b1 && polyEq0 a2 b2
+  | .div a1 a2, .div b1 b2 => polyEq0 a1 b1 && polyEq0 a2 b2
+  | _, _ => false
+
+def insertNew (l : List E) (x : E) : List E := if l.any (atomEq · x) then l else l ++ [x]
 def atomTable (es : List E) : List E := (es.flatMap E.atoms).foldl insertNew []
+def atomIdx (atoms : List E) (x : E) : Nat := atoms.findIdx (atomEq · x)
 
 def E.toGA (atoms : List E) : E → Expr
   | .add a b => .add (a.toGA atoms) (b.toGA atoms)
   | .sub a b => .sub (a.toGA atoms) (b.toGA atoms)
   | .mul a b => .mul (a.toGA atoms) (b.toGA atoms)
   | .neg a => .neg (a.toGA atoms)
-  | .lit n d => if d == 1 then .intCast n else .var (atoms.idxOf (.lit n d))
-  | e => .var (atoms.idxOf e)
+  | .lit n d => if d == 1 then .intCast n else .var (atomIdx atoms (.lit n d))
+  | e => .var (atomIdx atoms e)
 
 /-- decidable check: same normal form as polynomials over the common atom table -/
 def polyEq (a b : E) : Bool :=
@@ -50,6 +74,24 @@ def sumE : List E → E
 def polyEqMod (hyps : List (E × E)) (cert : List E) (a b : E) : Bool :=
   hyps.length == cert.length &&
   polyEq (.sub a b) (sumE ((hyps.zip cert).map fun (h, c) => .mul c (.sub h.1 h.2)))
+
+/-- conditions with the same shape whose operands agree as polynomials over the atoms -/
+def condOK : C → C → Bool
+  | .lt a b, .lt a' b' => polyEq a a' && polyEq b b'
+  | .le a b, .le a' b' => polyEq a a' && polyEq b b'
+  | .eq a b, .eq a' b' => polyEq a a' && polyEq b b'
+  | .isnan a, .isnan a' => a == a'
+  | .isinf a, .isinf a' => a == a'
+  | .not c, .not c' => condOK c c'
+  | .and a b, .and a' b' => condOK a a' && condOK b b'
+  | .or a b, .or a' b' => condOK a a' && condOK b b'
+  | _, _ => false
+
+/-- two decision trees with the same shape, matching conditions and matching leaves -/
+def treeOK (leafOK : E → E → Bool) : Tree → Tree → Bool
+  | .leaf a, .leaf b => leafOK a b
+  | .branch c t f, .branch c' t' f' => condOK c c' && treeOK leafOK t t' && treeOK leafOK f f'
+  | _, _ => false
 
 /-! ### rational functions: numerator / denominator normal form -/
 
